@@ -196,7 +196,7 @@ CHECKS["C13"] = hist_check(
     "structure invariants, equality of the cell structure with a tree freshly built from the edited particles, every particle once with "
     "its index, bit-identical data and preserved results, all expansions zero; after the e-th execute every pair has multiplicity e and "
     "the exact accumulated potential. Variants: extra data values, data type different from the coordinate type, periodic ordering, "
-    "both grouping modes. transitions = operations replayed.")
+    "both grouping modes. transitions = operations replayed; distinct_nontrivial = distinct canonical states reached by at least one operation.")
 
 CHECKS["C17"] = hist_check(
     "C17",
